@@ -661,7 +661,12 @@ func (fr *Frame) instr(in ssa.Instruction, st *State, pc Term, b *ssa.BasicBlock
 		vc.warn("%s: go statement: effects of the goroutine are not tracked (heap havoc)", fr.fn.Name())
 		preGo := st.clone()
 		vc.havocAllHeaps(st)
-		fr.havocCaptured(st, pc)
+		if ci, ok := fr.closures[in.Call.Value]; ok {
+			// the goroutine writes only the variables it captures itself
+			fr.havocCapturedBy(ci, st, pc)
+		} else {
+			fr.havocCaptured(st, pc)
+		}
 		fr.goEnsures(in, st, preGo, pc)
 	case *ssa.Send:
 		fr.send(in, st, pc)
@@ -1231,6 +1236,27 @@ func (fr *Frame) havocCaptured(st *State, pc Term) {
 				st.cells[a] = fr.freshTyped("cap:"+a.Comment, elem, st, pc)
 			}
 		}
+	}
+}
+
+// havocCapturedBy havocs the local cells that the given closure captures and
+// may write (directly, or by handing them on to a nested closure).
+func (fr *Frame) havocCapturedBy(ci *closureInfo, st *State, pc Term) {
+	for i, fv := range ci.fn.FreeVars {
+		if i >= len(ci.bindings) || !freeVarWritten(ci.fn, fv, 0) {
+			continue
+		}
+		a, ok := ci.bindings[i].(*ssa.Alloc)
+		if !ok || !fr.cellAlloc[a] {
+			// not a cell of this frame (a free variable of an enclosing
+			// function, or an escaping variable): fall back to the coarse havoc
+			fr.havocCaptured(st, pc)
+			return
+		}
+		if _, live := st.cells[a]; !live {
+			continue
+		}
+		st.cells[a] = fr.freshTyped("cap:"+a.Comment, derefType(a.Type()), st, pc)
 	}
 }
 
